@@ -234,6 +234,7 @@ func (g *Gen) execInstr(st *State, in ssa.Instruction) {
 	case *ssa.ChangeInterface:
 		g.regs[x] = g.value(st, x.X)
 	case *ssa.MakeInterface:
+		g.publish(st, g.value(st, x.X))
 		g.regs[x] = g.makeIface(st, g.value(st, x.X), x.X.Type())
 	case *ssa.TypeAssert:
 		g.regs[x] = g.typeAssert(st, x)
@@ -246,6 +247,7 @@ func (g *Gen) execInstr(st *State, in ssa.Instruction) {
 		fv := FuncV{Fn: x.Fn.(*ssa.Function)}
 		for _, b := range x.Bindings {
 			fv.Binds = append(fv.Binds, g.value(st, b))
+			g.publish(st, g.value(st, b))
 		}
 		g.regs[x] = fv
 	case *ssa.MakeMap:
@@ -258,6 +260,8 @@ func (g *Gen) execInstr(st *State, in ssa.Instruction) {
 		g.bumpAlloc(st)
 		g.regs[x] = RefV{r, x.Type()}
 	case *ssa.MapUpdate:
+		g.publish(st, g.value(st, x.Key))
+		g.publish(st, g.value(st, x.Value))
 		g.note("map", "map update not modelled")
 		g.bumpMaps(st)
 		// oracle clause on the update:  callee mapupdate:<name>(k, v)
@@ -344,6 +348,7 @@ func (g *Gen) execInstr(st *State, in ssa.Instruction) {
 		g.regs[x] = v
 		g.note("chan", "select not modelled: outcome unconstrained")
 	case *ssa.Send:
+		g.publish(st, g.value(st, x.X))
 		g.note("chan", "channel send not modelled")
 		if g.spec != nil {
 			name := "chansend:" + g.describeValue(x.Chan)
@@ -417,6 +422,9 @@ func (g *Gen) execAlloc(st *State, a *ssa.Alloc) {
 		return
 	}
 	p := PtrV{RootKey: typeKey(t), Ref: r, Idx: "0", Elem: t}
+	if _, ok := t.Underlying().(*types.Struct); ok && g.unroll == 0 {
+		st.unpub[r] = true
+	}
 	for _, l := range g.leaves(t) {
 		key := heapKey(p.RootKey, nil, l.suffix)
 		sort := nestSort(2, l.sort)
@@ -458,6 +466,7 @@ func (g *Gen) store(st *State, p PtrV, v Val) {
 		return
 	}
 	g.checkProtectedAccess(st, p)
+	g.publish(st, v)
 	g.storeHeap(st, p, v)
 }
 
